@@ -13,6 +13,9 @@ Only property theorems and examples; proofs are in Lemmas/SparseOrderIndep.lean 
 Lemmas/SparseElem*.lean files.
 -/
 import PyttbModel.Lemmas.SparseOrderIndep
+import PyttbModel.Lemmas.SparseOrderML
+import PyttbModel.Lemmas.SparseSquash
+import PyttbModel.Lemmas.SparseOrderIndex
 namespace Pyttb
 open SpElem
 
@@ -91,14 +94,14 @@ theorem C06_no_explicit_zero [Ring α] [DecidableEq α] (A : Sparse α) (hA : A.
     have hs : R.subs = [] := by
       rw [List.eq_nil_iff_forall_not_mem]
       intro i hi
-      exact R.get_ne_zero_of_mem w i hi (by rw [g i]; simp)
+      exact (R.get_ne_zero_iff w i).2 hi (by rw [g i]; simp)
     exact ⟨hs, List.length_eq_zero_iff.1 (by rw [← w.len, hs]; rfl)⟩
   · obtain ⟨R, e, w, _, g⟩ := sub_sparse_spec A A hA hA rfl hN
     refine ⟨R, e, ?_⟩
     have hs : R.subs = [] := by
       rw [List.eq_nil_iff_forall_not_mem]
       intro i hi
-      exact R.get_ne_zero_of_mem w i hi (by rw [g i]; simp)
+      exact (R.get_ne_zero_iff w i).2 hi (by rw [g i]; simp)
     exact ⟨hs, List.length_eq_zero_iff.1 (by rw [← w.len, hs]; rfl)⟩
 
 /-! ### well-formed operands give well-formed results -/
@@ -476,6 +479,170 @@ theorem C06_perm_shape_ops [AddCommMonoid α] [DecidableEq α] (S S' : Sparse α
       have : S'.full.shape = S'.shape := rfl
       rw [this, rS.1] at hi; exact hi
     rw [(sp_full_at S' hS' i (by rw [rS.1]; exact hi')).1, (sp_full_at S hS i hi').1, denote_perm rS]
+
+/-! ### the multilinear kernels (models of property C02): ttv, ttm, collapse, contract, scale; squash
+
+`ResWF r` says that a result handed back as a sparse tensor (resp. dense tensor) is well-formed;
+`ResSame r' r` says that two results have the same shape, the same entry at every position and,
+when both are sparse, the same stored (subscript, value) pairs up to order (`Reorder`). -/
+
+/-- Two well-formed sparse tensors of one shape that denote the same array store the same
+(subscript, value) pairs: equality of denotations IS equality of the stored sets. -/
+theorem C06_same_array_same_entries [AddMonoid α] [DecidableEq α] (R R' : Sparse α) (hR : R.WF) (hR' : R'.WF)
+    (hsh : R'.shape = R.shape) (hg : ∀ i, InBounds R.shape i → R'.get i = R.get i) : Reorder R' R :=
+  reorder_of_get_eq R R' hR hR' hsh hg
+
+/-- `sptensor.ttv`: whatever it returns (scalar, dense or sparse, on either side of the 50 % switch)
+is well-formed: the aggregated subscripts are in range and pairwise distinct, zero sums are dropped. -/
+theorem C06_wf_ttv [CommSemiring α] [DecidableEq α] (S : Sparse α) (hS : S.WF) (vs : List (List α))
+    (dims excl : Option (List Int)) (r : ML.Res α) (h : S.ttv vs dims excl = .ok r) : ResWF r :=
+  ttv_wf S hS vs dims excl r h
+
+/-- … and reordering the stored entries of the operand gives the same result: same shape, same
+entries, same stored pairs (this is the statement the seeded "adjacent runs" fast path violates). -/
+theorem C06_perm_ttv [CommSemiring α] [DecidableEq α] (S S' : Sparse α) (hS : S.WF) (rS : Reorder S' S)
+    (d : List Nat) (vs : List (List α)) (hd : d.Nodup) (hN : ∀ x ∈ d, x < S.shape.length)
+    (hl : vs.length = d.length) (hsz : ∀ p ∈ d.zip vs, p.2.length = S.shape.getD p.1 0) :
+    ∃ r r', S.ttv vs (some (d.map Int.ofNat)) none = .ok r ∧ S'.ttv vs (some (d.map Int.ofNat)) none = .ok r' ∧
+      ResWF r ∧ ResWF r' ∧ ResSame r' r :=
+  ttv_perm S S' hS rS d vs hd hN hl hsz
+
+/-- the same for the kernel after `tt_dimscheck` (modes with their vectors). -/
+theorem C06_perm_ttv_core [CommSemiring α] [DecidableEq α] (S S' : Sparse α) (hS : S.WF) (rS : Reorder S' S)
+    (pairs : List (Nat × List α)) (hnd : (pairs.map (·.1)).Nodup) (hlt : ∀ p ∈ pairs, p.1 < S.shape.length)
+    (hlen : ∀ p ∈ pairs, p.2.length = S.shape.getD p.1 0) :
+    ∃ r r', S.ttvCore pairs = .ok r ∧ S'.ttvCore pairs = .ok r' ∧ ResWF r ∧ ResWF r' ∧ ResSame r' r :=
+  ttvCore_perm S S' hS rS pairs hnd hlt hlen
+
+/-- `sptensor.collapse` (any reducer): results are well-formed. -/
+theorem C06_wf_collapse [CommSemiring α] [DecidableEq α] (S : Sparse α) (hS : S.WF) (dims : Option (List Int))
+    (f : List α → α) (r : ML.Res α) (h : S.collapse dims f = .ok r) : ResWF r :=
+  collapse_wf S hS dims f r h
+
+/-- `sptensor.collapse` with a reducer that depends only on the multiset of its non-zero arguments
+(sum, max of non-negatives, count, …): the stored order of the operand does not matter. -/
+theorem C06_perm_collapse [CommSemiring α] [DecidableEq α] (S S' : Sparse α) (hS : S.WF) (rS : Reorder S' S)
+    (dims : Option (List Nat)) (sel : List Nat)
+    (hdims : match dims with
+      | none => sel = List.range S.shape.length
+      | some d => d.Nodup ∧ (∀ x ∈ d, x < S.shape.length) ∧ sel = sdimsOf d)
+    (f : List α → α) (hf : ML.ZeroInsensitive f) (hf0 : f [] = 0) :
+    ∃ r r', S.collapse (dims.map fun d => d.map Int.ofNat) f = .ok r ∧
+      S'.collapse (dims.map fun d => d.map Int.ofNat) f = .ok r' ∧ ResWF r ∧ ResWF r' ∧ ResSame r' r :=
+  collapse_perm S S' hS rS dims sel hdims f hf hf0
+
+/-- `sptensor.contract`: results are well-formed. -/
+theorem C06_wf_contract [CommSemiring α] [DecidableEq α] (S : Sparse α) (hS : S.WF) (a b : Nat) (r : ML.Res α)
+    (h : S.contract a b = .ok r) : ResWF r :=
+  contract_wf S hS a b r h
+
+/-- `sptensor.contract`: the stored order of the operand does not matter. -/
+theorem C06_perm_contract [CommSemiring α] [DecidableEq α] (S S' : Sparse α) (hS : S.WF) (rS : Reorder S' S)
+    (a b : Nat) (ha : a < S.shape.length) (hb : b < S.shape.length) (hab : a ≠ b)
+    (hsz : S.shape.getD a 0 = S.shape.getD b 0) :
+    ∃ r r', S.contract a b = .ok r ∧ S'.contract a b = .ok r' ∧ ResWF r ∧ ResWF r' ∧ ResSame r' r :=
+  contract_perm S S' hS rS a b ha hb hab hsz
+
+/-- `sptensor.scale` with any factor (dense, sparse, plain vector): whenever it answers, the result
+is well-formed (vanishing products are not stored), a reordered operand is answered too, and
+the two results store the same pairs. -/
+theorem C06_wf_perm_scale [CommSemiring α] [DecidableEq α] (S S' : Sparse α) (hS : S.WF) (rS : Reorder S' S)
+    (F : Sparse.ScaleFactor α) (dims : List Int) (Y : Sparse α) (h : S.scale F dims = .ok Y) :
+    ∃ Y', S'.scale F dims = .ok Y' ∧ Y.WF ∧ Y'.WF ∧ Reorder Y' Y :=
+  scale_wf_perm S S' hS rS F dims Y h
+
+/-- `sptensor.ttm` (always a dense result): well-formed with the expected extents … -/
+theorem C06_wf_ttm [CommSemiring α] [DecidableEq α] (S : Sparse α) (hS : S.WF) (tr : Bool)
+    (pairs : List (Nat × Dense.MatArg α)) (hne : pairs ≠ [])
+    (hnd : (pairs.map (·.1)).Nodup) (hlt : ∀ p ∈ pairs, p.1 < S.shape.length)
+    (hsz : ∀ p ∈ pairs, (if tr then p.2.m else p.2.n) = S.shape.getD p.1 0) :
+    ∃ Y, S.ttmList pairs tr = .ok Y ∧ Y.WF ∧ Y.shape.length = S.shape.length := by
+  obtain ⟨Y, e, w, l, _⟩ := ML.sparse_ttmList_spec S hS tr
+    (fun d a b => match pairs.find? (fun p => p.1 == d) with
+      | some p => if tr then p.2.rows.get b a else p.2.rows.get a b
+      | none => 0) pairs hne hnd hlt hsz (by
+      intro p hp a b
+      have : pairs.find? (fun q => q.1 == p.1) = some p := by
+        clear hlt hsz hne
+        induction pairs with
+        | nil => cases hp
+        | cons q qs ih =>
+          simp only [List.map_cons, List.nodup_cons] at hnd
+          rcases List.mem_cons.1 hp with rfl | hp'
+          · simp
+          · have : q.1 ≠ p.1 := fun e => hnd.1 (e ▸ List.mem_map.2 ⟨p, hp', rfl⟩)
+            have hb : (q.1 == p.1) = false := by simpa using this
+            rw [List.find?_cons, hb]
+            exact ih hnd.2 hp'
+      rw [this])
+  exact ⟨Y, e, w, l⟩
+
+/-- … and literally the same answer (the same dense tensor, or the same refusal) for a reordered
+operand, for every argument convention. -/
+theorem C06_perm_ttm [CommSemiring α] [DecidableEq α] (S S' : Sparse α) (hS : S.WF) (rS : Reorder S' S)
+    (Ms : List (Dense.MatArg α)) (dims excl : Option (List Int)) (tr : Bool) :
+    S'.ttm Ms dims excl tr = S.ttm Ms dims excl tr :=
+  ttm_perm S S' hS rS Ms dims excl tr
+
+/-- `sptensor.squash`: the result is well-formed (renumbered coordinates stay distinct and below
+the new extents), keeps the values and the number of stored entries. -/
+theorem C06_wf_squash [Zero α] [BEq α] (S : Sparse α) (hS : S.WF) (h : S.subs ≠ []) :
+    ∃ R m, squash S = .ok (R, m) ∧ R.WF ∧ R.vals = S.vals ∧ R.nnz = S.nnz :=
+  squash_wf S hS h
+
+/-- `sptensor.squash`: a reordered operand gives the same coordinate maps and the same stored
+pairs. -/
+theorem C06_perm_squash [Zero α] [BEq α] (S S' : Sparse α) (hS : S.WF) (rS : Reorder S' S) (h : S.subs ≠ []) :
+    ∃ R R' m, squash S = .ok (R, m) ∧ squash S' = .ok (R', m) ∧ Reorder R' R :=
+  squash_perm S S' hS rS h
+
+/-! ### indexing (models and refinement of property C04), constructors and generators (C01, C20) -/
+
+/-- `sptensor.__getitem__` / `__setitem__` (every key form and right-hand side covered by the C04
+refinement, `provedAtSparse`): a read returns the same value / vector / array whatever the
+stored order of the tensor; a write leaves a well-formed tensor (no repeated subscript, an
+assigned zero deletes the entry) and the same stored pairs whatever the stored order before. -/
+theorem C06_perm_indexing [AddCommMonoid α] [DecidableEq α] (S S' : Sparse α) (hS : S.WF) (rS : Reorder S' S)
+    (op : IdxOp α) (hp : op.provedAtSparse S.shape = true) :
+    (S'.step op).2 = (S.step op).2 ∧ (S.step op).1.WF ∧ (S'.step op).1.WF ∧
+      Reorder (S'.step op).1 (S.step op).1 :=
+  indexing_perm S S' hS rS op hp
+
+/-- `sptenmat(subs, vals, rdims, cdims, tshape)` (copying constructor): whenever it accepts, the
+stored matrix is well-formed — repeated (row, column) pairs are summed, zero sums dropped,
+pairs inside the matrix — and denotes the sums of the given values. -/
+theorem C06_wf_sptenmat_ctor [AddMonoid α] [DecidableEq α] (subs : List (List Nat)) (vals : List α)
+    (r c ts : List Nat) (M : Sptenmat α) (h : Sptenmat.mkCopy subs vals r c ts = .ok M) :
+    Sparse.WF (⟨M.mshape, M.subs, M.vals⟩ : Sparse α) ∧
+    ∀ i, Sparse.get (⟨M.mshape, M.subs, M.vals⟩ : Sparse α) i = kvSum (subs.zip vals) i :=
+  mkCopy_wf subs vals r c ts M h
+
+/-- … and the same triples listed in another order give the same stored entries. -/
+theorem C06_perm_sptenmat_ctor [AddCommMonoid α] [DecidableEq α] (subs subs' : List (List Nat)) (vals vals' : List α)
+    (r c ts : List Nat) (M M' : Sptenmat α)
+    (h : Sptenmat.mkCopy subs vals r c ts = .ok M) (h' : Sptenmat.mkCopy subs' vals' r c ts = .ok M')
+    (hp : (subs'.zip vals').Perm (subs.zip vals)) :
+    Reorder (⟨M'.mshape, M'.subs, M'.vals⟩ : Sparse α) ⟨M.mshape, M.subs, M.vals⟩ :=
+  mkCopy_perm subs subs' vals vals' r c ts M M' h h' hp
+
+/-- `sptendiag(elements, shape)` is well-formed: zero elements are not stored. -/
+theorem C06_wf_sptendiag [AddMonoid α] [DecidableEq α] (elements : List α) (shape : Option (List Nat))
+    (hN : elements ≠ []) (hs : diagShape elements.length shape ≠ []) :
+    ∃ S, Sparse.sptendiag elements shape = .ok S ∧ S.WF := by
+  obtain ⟨S, e, _, w, _⟩ := sptendiag_spec elements shape hN hs
+  exact ⟨S, e, w⟩
+
+/-- `sptenrand` / `sptensor.from_function` (the draws of `np.random.uniform` and the values handed
+back by the user function are explicit inputs): the result is well-formed — distinct in-range
+subscripts, one value each — provided the value function returns no exact zero. -/
+theorem C06_wf_sptenrand [Zero α] [BEq α] (shape : List Nat) (q : Rat) (nz : Nat)
+    (draw : Nat → List (List Rat)) (fh : Nat → List α)
+    (hq : nonzerosRequest true shape q = .ok nz)
+    (hdraw : ∀ k < 10, ∀ row ∈ draw k, row.length = shape.length ∧ ∀ u ∈ row, 0 ≤ u ∧ u < 1)
+    (hfh : ∀ n, (fh n).length = n ∧ ∀ v ∈ fh n, (v == 0) = false) :
+    ∃ S cnt, Sparse.fromFunction shape q draw fh = .ok (S, cnt) ∧ S.shape = shape ∧ S.WF := by
+  obtain ⟨S, cnt, e, sh, w, _⟩ := fromFunction_spec shape q nz draw fh hq hdraw hfh
+  exact ⟨S, cnt, e, sh, w⟩
 
 /-! ### the statements are about something -/
 
